@@ -241,3 +241,12 @@ def range_iter(I, ctx, st, prefix, minb, maxb, order, keys_only=False):
     if order.variant == "Descending": out.reverse()
     if keys_only: return make_iter([Ok(key_out(k)) for k, v in out])
     return make_iter([Ok((key_out(k), v)) for k, v in out])
+
+
+@M.on(r"(^|::)SnapshotMap(<.*>)?::(range|range_raw|keys|keys_raw|prefix|sub_prefix|prefix_range|no_prefix|no_prefix_raw)$")
+def m_snapshot_range(I, ctx, callee, args, crate):
+    """SnapshotMap's listing helpers only rebuild a Prefix over the primary map (cw-storage-plus snapshot/map.rs): delegate"""
+    sm = I.deref(ctx, args[0])
+    prim = sm.get("primary") if isinstance(sm, Struct) and sm.names and "primary" in sm.names else sm.fields[0]
+    meth = strip_generics(callee).split("::")[-1]
+    return m_map(I, ctx, "cw_storage_plus::Map::" + meth, [prim] + list(args[1:]), crate)
